@@ -855,7 +855,85 @@ def rule_prim(R):
 
 
 
+def rule_varint_encoder(R):
+    """the variable byte integer encoder [MQTT 5 1.5.5]: seven value bits per byte, least significant group first, bit 7 set
+    exactly while more groups follow, values above 268 435 455 refused.  Read off the constants of the encoder: the low
+    group is `value & 0x7F` (or `% 128`), the step is `value >> 7` (or `/ 128`), the continuation bit is `| 0x80` on the
+    edge `value != 0` only, the loop ends on `value == 0`, and the refusal compares with MQTT_VARINT_MAX = 0x0FFF_FFFF."""
+    f = R.f
+    ws = [b for b in f.bodies.values() if b.fn_name == "write_mqtt_u32_varint" and not f.in_fuzzing(b)]
+    if len(ws) != 1:
+        raise AnchorLost("varint-encoder", "expected one write_mqtt_u32_varint, found %d" % len(ws))
+    b = ws[0]
+    R.touch(b)
+    def cst(t):
+        t = peel(t)
+        for _ in range(4):
+            if t[0] == "cast":
+                t = peel(t[2])
+            elif is_call(t, "From::from", "from", "Into::into", "into") and len(t[3]) == 1:
+                t = peel(t[3][0])           # `u32::from(GROUP_MASK)`
+            else:
+                break
+        return t[2] if t[0] == "const" and isinstance(t[2], int) else None
+    groups, steps, conts, others = [], [], [], []
+    for bb, j, s_ in b.assigns():
+        rv = s_["rv"]
+        if bb not in b.reachable or "bin" not in rv:
+            continue
+        op = rv["bin"]
+        t = peel(b.rvalue_term(rv))
+        if t[0] == "field":
+            t = peel(t[1])
+        k = cst(t[3]) if len(t) > 3 else None
+        if op in ("BitAnd", "Rem", "RemWithOverflow"):
+            groups.append((op, k))
+        elif op in ("Shr", "ShrUnchecked", "Div"):
+            steps.append((op, k))
+        elif op in ("BitOr", "Add", "AddWithOverflow") and s_["dst"].get("ty") == "u8":
+            conts.append((op, k, bb))
+        elif op in ("Shl", "BitXor", "Mul", "MulWithOverflow", "Sub", "SubWithOverflow"):
+            others.append(op)
+    okg = len(groups) == 1 and groups[0] in (("BitAnd", 127), ("Rem", 128), ("RemWithOverflow", 128))
+    oks = len(steps) == 1 and steps[0] in (("Shr", 7), ("ShrUnchecked", 7), ("Div", 128))
+    okc = len(conts) == 1 and conts[0][1] == 128
+    if okc:
+        # only on the edge where the remaining value is non-zero
+        edges = []
+        for sb in b.switches:
+            si = b.switch_info(sb)
+            sj = peel(si["subject"])
+            if sj[0] == "bin" and sj[1] in ("Ne", "Eq", "Gt") and any(cst(x) == 0 for x in (sj[2], sj[3])):
+                lab = sj[1] in ("Ne", "Gt")
+                if si["edges"].get(lab) is not None:
+                    edges.append((sb, si["edges"][lab]))
+            # `while value > 0x7F { push(low | 0x80); value >>= 7 }`: more follows exactly when the value does not fit one group
+            elif sj[0] == "bin" and ((sj[1] == "Gt" and cst(sj[3]) == 127) or (sj[1] == "Ge" and cst(sj[3]) == 128)
+                                     or (sj[1] == "Lt" and cst(sj[2]) == 127) or (sj[1] == "Le" and cst(sj[2]) == 128)):
+                if si["edges"].get(True) is not None:
+                    edges.append((sb, si["edges"][True]))
+        okc = bool(edges) and b.must_pass([0], [conts[0][2]], via_edges=edges)[0]
+    R.ob("varint/encoder/group", okg, "each byte carries the low seven bits of the remaining value (found %s)" % groups, where=b.span)
+    R.ob("varint/encoder/step", oks, "the remaining value is shifted right by seven bits per byte (found %s)" % steps, where=b.span)
+    R.ob("varint/encoder/continuation", okc and not others,
+         "bit 7 (0x80) is set exactly on the edge where more groups follow (found %s%s)" % ([c_[:2] for c_ in conts], (", also " + ",".join(others)) if others else ""),
+         where=b.span)
+    okm = False
+    for sb in b.switches:
+        si = b.switch_info(sb)
+        sj = peel(si["subject"])
+        if sj[0] == "bin" and sj[1] in ("Gt", "Ge", "Lt", "Le"):
+            ks = [cst(x) for x in (sj[2], sj[3])]
+            te = si["edges"].get(sj[1] in ("Gt", "Ge"))
+            if (0x0FFFFFFF in ks and sj[1] in ("Gt", "Le")) or (0x10000000 in ks and sj[1] in ("Ge", "Lt")):
+                vals = [b.rvalue_term(s2["rv"]) for x in b.reach([te]) for s2 in b.blocks[x]["stmts"]
+                        if s2["k"] == "assign" and s2["dst"]["l"] == 0 and "agg" in s2["rv"]] if te is not None else []
+                okm = bool(vals) and any(v[3] == "Err" for v in vals)
+    R.ob("varint/encoder/maximum", okm, "a value above 268 435 455 (four groups) is refused, not truncated", where=b.span)
+
+
 def run(R):
+    R.rule("varint-encoder", rule_varint_encoder)
     R.rule("prim", rule_prim)
     R.rule("qos-wiring", rule_shared_qos_wiring)
     R.rule("corr", rule_correlation)
